@@ -259,10 +259,14 @@ MODS = [("", "a"), ("", "a"), ("nocase", "ai"), ("wide", "w"), ("ascii wide", "a
 
 
 def gen_regex(r):
-    greedy = r.random() < 0.6
-    g = G(r, greedy)
-    alts = g.top()
-    return alts, greedy
+    """loops over zero-width assertions hang the engine (listed finding C03-zero-width-loop-hang, kept in the corpus):
+    the random stream avoids them, every hang would cost a timeout"""
+    while True:
+        greedy = r.random() < 0.6
+        g = G(r, greedy)
+        alts = g.top()
+        if not zero_width_loop(rc.ast_text(rc.norm(alts_ast(alts, greedy)))):
+            return alts, greedy
 
 
 def widen(b):
@@ -405,6 +409,22 @@ def killed_fiber_sig(ast_text):
     return zw[0] and loop[0]
 
 
+def zero_width_loop(ast_text):
+    """signature of C03-zero-width-loop-hang: a repeat whose body is nullable and contains a zero-width assertion"""
+    def has_zero(n):
+        if n[0] == "zero" and n[1] != "e": return True
+        return any(has_zero(x) for x in n[1:] if isinstance(x, tuple))
+
+    def go(n):
+        if n[0] in ("star", "plus", "range") and nullable(n[1]) and has_zero(n[1]):
+            return True
+        return any(go(x) for x in n[1:] if isinstance(x, tuple))
+    try:
+        return go(parse_ast_text(ast_text))
+    except Exception:
+        return False
+
+
 def lazy_dot_chain(ast_text):
     """signature of C03-lazy-dot-chain: top-level concatenation with an inner lazy rangeAny whose bounds exceed 200"""
     items = []
@@ -440,6 +460,8 @@ def nullable_repeat(ast_text):
 CORPUS = [
     ("/a*/", "", "a", b"xxaaaxx"), ("/a{,0}/", "", "a", b"a"), ("/(a|bc)+d/", "", "a", b"abcabcd xbcd"), ("/a(b|bc)/", "fullword", "af", b"abc"),
     ("/ab{2,4}?c/", "", "a", b"abbbbc abc abbc"), ("/\\bfoo\\B/", "", "a", b"food foo"), ("/^ab/", "", "a", b"abab"), ("/ab$/", "", "a", b"abab"),
+    ("/(\\B)*?b|./", "", "a", b"-\xe9a", "A(C(*l(B),l62),.)"), ("/(\\B)*b|./", "", "a", b"-\xe9a", "A(C(*g(B),l62),.)"),
+    ("/^(a{,2}?){4,4}?/", "", "a", b"Aaaaaaa", "C(^,Rl4,4(Rl0,2(l61)))"),
     ("/[^a-c]x/i", "", "ai", b"Ax dx Dx"), ("/a.c/s", "wide", "ws", b"a\0\n\0c\0a\0b\0c\0"), ("/(a*)*b/", "", "a", b"aaab"), ("/(a|)*b/", "", "a", b"aab"),
 ]
 
@@ -458,10 +480,11 @@ def run(tier, replay=None):
     r = core.rng("C03")
     ns, nm = (900, 300) if tier == "quick" else (30000, 10000)
     cases, metas = [], {}
-    for i, (rx, mods, fl, buf) in enumerate(CORPUS):
+    for i, ent in enumerate(CORPUS):
+        rx, mods, fl, buf = ent[:4]
         cid = "k%d" % i
         rule = "rule r { strings: $a = %s %s condition: #a >= 0 }" % (rx, mods)
-        cases.append("%s src=%s re=? fl=%s buf=%s code=1 fx=1" % (cid, hx(rule), fl, hx(buf)))
+        cases.append("%s src=%s re=%s fl=%s buf=%s code=1 fx=1" % (cid, hx(rule), ent[4] if len(ent) > 4 else "?", fl, hx(buf)))
         metas[cid] = dict(kind="string", regex=rx, mods=mods, corpus=True)
     for i in range(ns):
         line, meta = gen_string_case(r, "s%d" % i)
@@ -473,7 +496,11 @@ def run(tier, replay=None):
         cases = [replay["case"]]
         metas[replay["case"].split(" ", 1)[0]] = replay.get("meta", {})
     found = False
-    amap, crash_re = rc.run_robust(core, [b["h_re"]], cases)
+    # corpus cases known to hang the engine run apart, only through h_scan, with a short timeout
+    hazard = [c for c in cases if c.split(" ", 1)[0].startswith("k") and zero_width_loop(dict(t.split("=", 1) for t in c.split()[1:] if "=" in t).get("re", ""))]
+    hz = set(c.split(" ", 1)[0] for c in hazard)
+    normal = [c for c in cases if c.split(" ", 1)[0] not in hz]
+    amap, crash_re = rc.run_robust(core, [b["h_re"]], normal)
     fixed = []
     for c in cases:
         cid = c.split(" ", 1)[0]
@@ -482,7 +509,11 @@ def run(tier, replay=None):
             c = c.replace(" re=? ", " re=%s " % (tok[0].split(":", 2)[2] if tok else "e"))
         fixed.append(c)
     cases = fixed
-    imap, crash_scan = rc.run_robust(core, [b["h_scan"]], cases)
+    imap, crash_scan = rc.run_robust(core, [b["h_scan"]], [c for c in cases if c.split(" ", 1)[0] not in hz])
+    im2, cr2 = rc.run_robust(core, [b["h_scan"]], hazard, jobs=1, chunk_timeout=4, confirm=False)
+    imap.update(im2); crash_scan += cr2
+    for c in hazard:
+        amap.setdefault(c.split(" ", 1)[0], c.split(" ", 1)[0] + " OK ast=-")
     model = []
     if lres.get("driver_ok"):
         model, _, _ = core.run_parallel([core.driver_path(), "re"], cases)
@@ -512,6 +543,9 @@ def run(tier, replay=None):
             if "C03-continue-killed-fiber" in kf and "yr_re_exec: Assertion" in errx and killed_fiber_sig(toks.get("re", "")):
                 known_hits.setdefault("C03-continue-killed-fiber", []).append(cid)
                 continue
+            if "C03-zero-width-loop-hang" in kf and rcx == "timeout" and zero_width_loop(toks.get("re", "")):
+                known_hits.setdefault("C03-zero-width-loop-hang", []).append(cid)
+                continue
             viol("crash_%s.json" % cid, {"kind": "crash / sanitizer report while compiling or scanning", "engine": "re", "harness": hname, "case": c, "rc": rcx,
                                         "stderr": errx[-2500:], "meta": metas.get(cid, {})})
     for c in cases:
@@ -523,6 +557,9 @@ def run(tier, replay=None):
         d = rc.parse_scan(il)
         toks = dict(t.split("=", 1) for t in c.split()[1:] if "=" in t)
         if d["status"] != "OK":
+            if "TOO_MANY_RE_FIBERS" in il and "C03-zero-width-loop-hang" in kf and zero_width_loop(toks.get("re", "")):
+                known_hits.setdefault("C03-zero-width-loop-hang", []).append(cid)
+                continue
             if any(x in il for x in LIMITS):
                 k = [x for x in LIMITS if x in il][0]
                 hist["limit_skipped"][k] = hist["limit_skipped"].get(k, 0) + 1
@@ -605,9 +642,10 @@ def run(tier, replay=None):
     def excuse(line, kind, err):
         toks = dict(t.split("=", 1) for t in line.split()[1:] if "=" in t)
         if kind == "crash":
-            return "C03-continue-killed-fiber" in kf and "yr_re_exec: Assertion" in err and killed_fiber_sig(toks.get("re", ""))
+            return ("C03-continue-killed-fiber" in kf and "yr_re_exec: Assertion" in err and killed_fiber_sig(toks.get("re", ""))) or \
+                   ("C03-zero-width-loop-hang" in kf and zero_width_loop(toks.get("re", "")))
         return "C03-nullable-repeat" in kf and nullable_repeat(toks.get("re", ""))
-    wres, wfound = rc.check_wfx(core, chk, b, cases, excuse) if lres.get("driver_ok") else ({}, False)
+    wres, wfound = rc.check_wfx(core, chk, b, [c for c in cases if c.split(" ", 1)[0] not in hz], excuse) if lres.get("driver_ok") else ({}, False)
     found = found or wfound
     chk.cov.update({
         "evaluations": len(cases), "distinct_nontrivial": len(distinct),
